@@ -214,7 +214,19 @@ def elementwise(ctx, f, operands, dtype=None):
     snaps = [o.snapshot() if isinstance(o, Arr) else o for o in ops]
     if dtype is None:
         dtype = result_dtype([o.dtype if isinstance(o, Arr) else scalar_dtype(o) for o in ops])
-    maps = {}
+    if any((isinstance(o, Arr) and o.dtype == 'str') or isinstance(o, str) for o in ops) \
+            and all(not S.is_z3(d) for d in shape):
+        # string arrays are small and concrete: evaluate eagerly (no if-then-else over strings)
+        import itertools as _it
+        table = {}
+        for idx in _it.product(*[range(d) for d in shape]):
+            vals = [o.at(bidx(ctx, o.shape, shape, idx)) if isinstance(o, Arr) else o for o in snaps]
+            table[idx] = f(*vals)
+        if len(shape) == 1:
+            return Arr.from_list([table[(i,)] for i in range(shape[0])], dtype=dtype)
+        if len(shape) == 2:
+            return Arr.from_list([[table[(i, j)] for j in range(shape[1])] for i in range(shape[0])], dtype=dtype)
+        raise Unsupported('string array rank')
 
     def fn(idx):
         vals = []
